@@ -116,7 +116,7 @@ package iterable
 //@ ghostfield rlItem.owner ref
 //@ ghostfield rlItem.ord int
 
-//@ pred (im *Map[K, V]) owns(n *rlItem[K, V]) = n != nil && n.owner == im
+//@ pred (im *Map[K, V]) owns(n *rlItem[K, V]) = n != nil && allocated(n) && n.owner == im
 // representation invariant
 //@ pred (im *Map[K, V]) wf() = im != nil && im.vals != nil && im.owns(im.head) && im.owns(im.last) &&
 //@    im.last.state == rlLast && im.last.next == nil && im.head.prev == nil &&
@@ -141,7 +141,7 @@ package iterable
 //@ package sync
 // the pool of a Map hands out nodes that are in no list (we only ever Put unlinked nodes: precondition of Put)
 //@ assumed func (p *Pool) Get() any
-//@   ensures r0 != nil && anyType(r0) && allocated(r0) && cast(*iterable.rlItem, r0).owner == nil && cast(*iterable.rlItem, r0).refCnt == 0
+//@   ensures r0 != nil && anyType(r0) && typeIs(r0, *iterable.rlItem) && allocated(r0) && cast(*iterable.rlItem, r0).owner == nil && cast(*iterable.rlItem, r0).refCnt == 0
 //@ assumed func (p *Pool) Put(x any)
 //@   requires x != nil && cast(*iterable.rlItem, x).owner == nil && cast(*iterable.rlItem, x).refCnt == 0
 //@ package github.com/acquirecloud/golibs/container/iterable
@@ -203,37 +203,81 @@ package iterable
 //@   props C10 C11
 //@   requires im.wf() && im.head.refCnt < 1<<62
 //@   modifies im.head.refCnt
-//@   ensures im.wf() && fresh(r0) && typeIs(r0, *mapIterator[K, V]) && cast(*mapIterator[K, V], r0).im == im && cast(*mapIterator[K, V], r0).ptr == im.head
+//@   ensures im.wf() && fresh(r0) && onlyNew(r0) && typeIs(r0, *mapIterator[K, V]) && cast(*mapIterator[K, V], r0).im == im && cast(*mapIterator[K, V], r0).ptr == im.head
 //@   ensures im.head.refCnt == old(im.head.refCnt) + 1
 
 // an iterator position p is valid: the node is in the list and this iterator's reference is counted
 //@ pred (im *Map[K, V]) holds(p *rlItem[K, V]) = im.owns(p) && p.refCnt >= 1
 // no node is referenced 2^62 times (resource bound; keeps refCnt++ from overflowing)
 //@ pred (im *Map[K, V]) small() = forall(n, *rlItem[K, V], im.owns(n) ==> n.refCnt < 1<<62, n.owner)
+// internal slack: a few more references than small() allows still cannot overflow
+//@ pred (im *Map[K, V]) room() = forall(n, *rlItem[K, V], im.owns(n) ==> n.refCnt < 1<<62 + 8, n.owner)
+//@ pred (im *Map[K, V]) room4() = forall(n, *rlItem[K, V], im.owns(n) ==> n.refCnt < 1<<62 + 4, n.owner)
 // one reference moved from node a to node b; every other count is unchanged; only a may have left the list
-//@ pred (im *Map[K, V]) moved(a *rlItem[K, V], b *rlItem[K, V]) = forall(n, *rlItem[K, V], old(im.owns(n)) ==> n.ord == old(n.ord) && (n != a ==> im.owns(n)) && (im.owns(n) ==> n.refCnt == old(n.refCnt) - ite(n == a, 1, 0) + ite(n == b, 1, 0)) && (im.owns(n) && n.state == rlOk ==> old(n.state) == rlOk && n.key == old(n.key) && n.val == old(n.val)) && (im.owns(n) && old(n.state) == rlOk ==> n.state == rlOk), n.owner) && forall(n, *rlItem[K, V], im.owns(n) ==> old(im.owns(n)), n.owner)
+//@ pred (im *Map[K, V]) moved(a *rlItem[K, V], b *rlItem[K, V]) = forall(n, *rlItem[K, V], old(im.owns(n)) ==> n.ord == old(n.ord) && (n != a || old(n.state) != rlDeleted || old(n.refCnt) > 1 ==> im.owns(n)) && (im.owns(n) ==> n.refCnt == old(n.refCnt) - ite(n == a, 1, 0) + ite(n == b, 1, 0)) && (im.owns(n) ==> n.state == old(n.state) && n.key == old(n.key) && (n.state == rlOk ==> n.val == old(n.val))), n.owner) && forall(n, *rlItem[K, V], im.owns(n) ==> old(im.owns(n)), n.owner)
 
 //@ func (im *Map[K, V]) next(p *rlItem[K, V]) *rlItem[K, V]
 //@   props C10 C11
-//@   requires im.wf() && im.holds(p) && im.small()
+//@   requires im.wf() && im.holds(p) && im.room()
 //@   modifies im.head, each(n, *rlItem[K, V], n.owner == im, n.refCnt, n.val, n.state, n.next, n.prev, n.owner)
 //@   ensures im.wf() && im.holds(r0) && r0.state != rlDeleted && im.moved(p, r0) && r0.ord >= old(p.ord) && (old(p.state) != rlLast ==> r0.ord > old(p.ord))
 //@   ensures old(p.state) == rlLast ==> r0 == p
+//@   ensures forall(n, *rlItem[K, V], old(im.owns(n)) && old(p.ord) < n.ord && n.ord < r0.ord ==> old(n.state) == rlDeleted, n.owner)
 //@   loop 1
 //@     invariant im.wf()
 //@     invariant im.holds(p) && p.ord >= old(p0.ord)
 //@     invariant im.moved(p0, p)
+//@     invariant forall(n, *rlItem[K, V], old(im.owns(n)) && old(p0.ord) < n.ord && n.ord <= p.ord ==> old(n.state) == rlDeleted, n.owner)
 //@     decreases im.last.ord - p.ord
 
 //@ func (im *Map[K, V]) getValue(p *rlItem[K, V]) *rlItem[K, V]
 //@   props C10 C11
-//@   requires im.wf() && im.holds(p) && im.small()
+//@   requires im.wf() && im.holds(p) && im.room()
 //@   modifies im.head, each(n, *rlItem[K, V], n.owner == im, n.refCnt, n.val, n.state, n.next, n.prev, n.owner)
 //@   ensures im.wf() && im.holds(r0) && r0.state != rlDeleted && im.moved(p, r0) && r0.ord >= old(p.ord)
 //@   ensures old(p.state) != rlDeleted ==> r0 == p
+//@   ensures forall(n, *rlItem[K, V], old(im.owns(n)) && old(p.ord) <= n.ord && n.ord < r0.ord ==> old(n.state) == rlDeleted, n.owner)
 
 //@ func (im *Map[K, V]) release(p *rlItem[K, V])
 //@   props C10 C11
 //@   requires im.wf() && im.holds(p)
 //@   modifies im.head, p.refCnt, p.val, p.state, p.next, p.prev, p.owner, p.prev.next, p.next.prev
 //@   ensures im.wf() && im.moved(p, nil)
+
+// ---- the map's iterator: position = ord of the node it is parked on ----
+//@ pred (it *mapIterator[K, V]) valid() = it != nil && it.im != nil && it.im.wf() && it.im.holds(it.ptr)
+// no live key has its stamp in [lo, hi)
+//@ pred (im *Map[K, V]) noneIn(lo int, hi int) = forall(j, K, has(im.vals, j) ==> !(lo <= im.aord(j) && im.aord(j) < hi))
+
+//@ func (it *mapIterator[K, V]) HasNext() bool
+//@   props C10 C11
+//@   requires it.valid() && it.im.room4()
+//@   modifies it.ptr, it.im.head, each(n, *rlItem[K, V], n.owner == it.im, n.refCnt, n.val, n.state, n.next, n.prev, n.owner)
+//@   ensures it.valid() && it.im == old(it.im) && it.im.moved(old(it.ptr), it.ptr) && it.ptr.ord >= old(it.ptr.ord)
+//@   ensures r0 == (it.ptr.state == rlOk) && it.im.noneIn(old(it.ptr.ord), it.ptr.ord)
+//@   ensures !r0 ==> it.ptr == it.im.last
+
+//@ func (it *mapIterator[K, V]) Next() (MapEntry[K, V], bool)
+//@   props C10 C11
+//@   requires it.valid() && it.im.room4()
+//@   modifies it.ptr, it.im.head, each(n, *rlItem[K, V], n.owner == it.im, n.refCnt, n.val, n.state, n.next, n.prev, n.owner)
+//@   ensures it.valid() && it.im == old(it.im) && it.im.moved(old(it.ptr), it.ptr) && it.ptr.ord >= old(it.ptr.ord)
+//@   ensures r1 ==> has(it.im.vals, r0.Key) && r0.Value == it.im.aval(r0.Key) && old(it.ptr.ord) <= it.im.aord(r0.Key) && it.im.aord(r0.Key) < it.ptr.ord
+//@   ensures r1 ==> it.im.noneIn(old(it.ptr.ord), it.im.aord(r0.Key)) && it.im.noneIn(it.im.aord(r0.Key) + 1, it.ptr.ord)
+//@   ensures !r1 ==> it.im.noneIn(old(it.ptr.ord), it.ptr.ord + 1) && it.ptr == it.im.last
+
+//@ func (it *mapIterator[K, V]) Close() error
+//@   props C10 C11
+//@   requires it.valid()
+//@   modifies it.ptr, it.im.head, it.ptr.refCnt, it.ptr.val, it.ptr.state, it.ptr.next, it.ptr.prev, it.ptr.owner, it.ptr.prev.next, it.ptr.next.prev
+//@   ensures r0 == nil && it.ptr == nil && it.im == old(it.im) && it.im.wf() && it.im.moved(old(it.ptr), nil)
+
+//@ func (im *Map[K, V]) First() (K, bool)
+//@   props C10 C11
+//@   devirt *mapIterator[K, V]
+//@   requires im.wf() && im.small()
+//@   modifies im.head, each(n, *rlItem[K, V], n.owner == im, n.refCnt, n.val, n.state, n.next, n.prev, n.owner)
+//@   ensures im.wf()
+//@   ensures im.moved(nil, nil)
+//@   ensures r1 ==> has(im.vals, r0) && forall(j, K, has(im.vals, j) ==> im.aord(r0) <= im.aord(j))
+//@   ensures !r1 ==> forall(j, K, !has(im.vals, j))
